@@ -30,14 +30,14 @@ type Profile struct {
 	Dust        float64 // probability of a dust-magnitude asset
 	Huge        float64 // probability of an 18-decimals asset
 	TakeRates   []string
-	ShortUnbond float64 // probability of a short unbonding time (maturities inside the run)
-	BoundaryTo  []string // preferred deadline kinds for boundary-aimed block gaps
-	DecayBias   float64  // probability that an asset decays (default 0.35)
-	MinAssets   int      // at least this many assets (C19: several assets and reward denoms per validator)
-	JailOnly    bool     // downtime slash fraction 0: validators are jailed (leave the bonded set) without any value change
-	PDrain      float64  // per block: start a drain (every known position of one asset exits in full over two blocks, then a new staking cycle begins)
-	PBurst      float64  // per block: start a packed scenario (same-block multi-denom/multi-validator exits, fan-in redelegations, ...)
-	PExport     float64  // per block: export/import (hard fork) at the block boundary
+	ShortUnbond float64         // probability of a short unbonding time (maturities inside the run)
+	BoundaryTo  []string        // preferred deadline kinds for boundary-aimed block gaps
+	DecayBias   float64         // probability that an asset decays (default 0.35)
+	MinAssets   int             // at least this many assets (C19: several assets and reward denoms per validator)
+	JailOnly    bool            // downtime slash fraction 0: validators are jailed (leave the bonded set) without any value change
+	PDrain      float64         // per block: start a drain (every known position of one asset exits in full over two blocks, then a new staking cycle begins)
+	PBurst      float64         // per block: start a packed scenario (same-block multi-denom/multi-validator exits, fan-in redelegations, ...)
+	PExport     float64         // per block: export/import (hard fork) at the block boundary
 	Clean       map[string]bool // preconditions of open known findings the generator must avoid (clean mode)
 }
 
@@ -154,17 +154,17 @@ func genConfig(rng *RNG, p *Profile) Config {
 }
 
 type genState struct {
-	rng     *RNG
-	p       *Profile
-	cfg     *Config
-	pos     [][3]int // (who,val,denom) positions the generator believes exist
-	nvals   int      // validator slots believed to exist
-	extra   int      // create_validator ops issued
-	absent  map[int]int
-	lastWho int
-	unbondNs int64
-	futureOps    map[int][]Op // block index -> ops scheduled by a burst
-	futureSlash  map[int][]Op
+	rng         *RNG
+	p           *Profile
+	cfg         *Config
+	pos         [][3]int // (who,val,denom) positions the generator believes exist
+	nvals       int      // validator slots believed to exist
+	extra       int      // create_validator ops issued
+	absent      map[int]int
+	lastWho     int
+	unbondNs    int64
+	futureOps   map[int][]Op // block index -> ops scheduled by a burst
+	futureSlash map[int][]Op
 }
 
 func (g *genState) amtDelegate(denom int) *Amt {
